@@ -2,7 +2,8 @@
 1. TLC proves the theorems of Conv.tla (separable = successive 1-D in any axis order = N-D convolution with the tensor
    kernel, symmetric form, boundary conditions, mean preservation, padded periodic convolution = direct convolution when
    nothing can wrap) and of DFT4.tla (inverse, impulse, Parseval, axis order, the FFT algorithm, real-data packing, the
-   convolution theorem) exhaustively on small instances.
+   convolution theorem) exhaustively on small instances.  For longer 1-D transforms the spec characterises the transform
+   through its own observed twiddle table (TableOk/PowerOk/ValuesOk).
 2. The driver records what STIR's filters and transforms return (exact dyadic instances for the convolution filters,
    fixed-point observations for the DFT routes and the Gaussian/Metz filters); TLC (Trace_Conv, Trace_DFT4) must explain
    every recorded line.  Python only orchestrates and counts."""
@@ -10,7 +11,7 @@ import os, json, concurrent.futures as cf
 from . import lib
 
 CONV_EVENTS = {"C1", "CS", "CN", "SEP", "DF", "MEAN"}
-DFT_EVENTS = {"FI", "RC"}
+DFT_EVENTS = {"FI", "RC", "TW"}
 
 
 def _split(path, outdir, parts, tag):
@@ -51,6 +52,8 @@ def _key(rec):
         return (e, rec["dim"], tuple(rec["n"]), rec["sign"], rec["kind"])
     if e == "RC":
         return (e, rec["dim"], tuple(rec["n"]), rec["sign"])
+    if e == "TW":
+        return (e, tuple(rec["n"]), rec["sign"])
     return (str(e),)
 
 
@@ -81,7 +84,7 @@ def run(ctx):
         t1 = os.path.join(ctx.work, "conv.ndjson")
         lib.run_driver(exe, ["conv", t1, 300 if q else 6000, 0 if q else 1], env=env, timeout=600)
         t2 = os.path.join(ctx.work, "dft.ndjson")
-        lib.run_driver(exe, ["dft", t2, 256 if q else 2048, 1 if q else 2], env=env, timeout=600)
+        lib.run_driver(exe, ["dft", t2, 256 if q else 2048, 1 if q else 2, 256 if q else 1024], env=env, timeout=600)
         t3 = os.path.join(ctx.work, "filt.ndjson")
         lib.run_driver(exe, ["filt", t3, 45 if q else 400], env=env, timeout=900)
         jobs = [("Trace_Conv", t1, 2 if q else 6), ("Trace_DFT4", t2, 4 if q else 8), ("Trace_Conv", t3, 2 if q else 8)]
@@ -123,7 +126,7 @@ def run(ctx):
             rp = os.path.join(ctx.work, "violation-" + os.path.basename(p))
             lib.write_ndjson(rp, out)
             ctx.violation("%d recorded results not explained by %s, first: %s" % (len(newbad), mod.replace("Trace_", "") + ".tla", json.dumps(out[0])[:240]), rp)
-    for e in ("C1", "DF", "FI", "RC", "MEAN", "SEP", "CN", "CS"):
+    for e in ("C1", "DF", "FI", "RC", "TW", "MEAN", "SEP", "CN", "CS"):
         if not ctx.replay and counts.get(e, 0) == 0:
             raise lib.ModelFailure("no %s event recorded" % e)
     for rec in (lib.read_ndjson(pieces[0][1])[:2] if pieces else []):
@@ -132,7 +135,7 @@ def run(ctx):
     ctx.exhaustive = False
     ctx.assumptions = [
         "single-precision error model of the FFT (Higham, Theorem 24.2) with eta = 2^-20 per stage bounds the fixed-point tolerances (named operators FxTol, DFTRouteTol)",
-        "transform values for lengths >= 8 are decided only through relations between observations (inverse, Parseval, impulse, real vs complex), exactly for lengths 1, 2, 4",
+        "transform values: exactly for lengths 1, 2, 4 per axis; 1-D lengths up to 1024 through the observed twiddle table (character of Z_n pinned by w[n/4] = i^sign and the quadrant condition) to about 1E-4 absolute per twiddle and 1% per value; multi-dimensional transforms of longer axes only through relations between observations (inverse, Parseval, impulse, real vs complex)",
         "Gaussian/Metz kernels are observed through the impulse response of the same filter; Metz tolerance 2^-10 because the kernel is cut at 1E-4 of its centre value",
     ]
     return ctx.finish(rule="one evaluation = one recorded call of a STIR filter or transform (inputs, outputs) explained by TLC; "
